@@ -72,7 +72,7 @@ prop('C20',
 
 
 prop('C08',
-     [CV.r08_a, CV.r08_b, CV.r08_c, CV.r08_d, CV.r08_e_parse_only, CV.t_agree, T.r19_b, T.r19_i, T.r19_f],
+     [CV.r08_a, CV.r08_b, CV.r08_c, CV.r08_d, CV.r08_e_parse_only, CV.t_agree, T.r19_b, T.r19_i, T.r19_f, RO.r07_e],
      'Linear-resource (token conservation) analysis of reader.py: every token taken from the cursor and every value '
      'returned by a reader call is a resource; along every enumerated path (loops 0/1/2 times, callee result shapes '
      'per constant-argument context, to a fixpoint) each resource must be stored in the tree, returned, handed to a '
